@@ -9,6 +9,19 @@ BASELINE = ("cd /repo && env -u PYCRAFT_VERIF /venv/bin/python -m pytest -ra -q 
             "--timeout=900 --continue-on-collection-errors")
 
 CHECKS = {
+    'C08': dict(
+        technique='version records, derived tables and predicate matrices extracted from the running code and checked by '
+                  'TLC ASSUMEs against TLA+ projections and rank order (T-mode); Versions.tla model of run-time extension / '
+                  're-initialisation explored exhaustively and every state replayed into the real module (S->I)',
+        text='VersionTables.tla: the seven derived tables must equal the order-preserving duplicate-free projections of the '
+             'records (defined in TLA+), ordinary numbers ascend, and the five order predicates (plus context variants), '
+             'evaluated by the code on all ordered pairs of known protocols, must be exactly the strict / non-strict order of '
+             'first-occurrence ranks; in_range is checked against those validated relations. Versions.tla models extension of '
+             'the records, direct extension of the supported map and both re-initialisation modes; TLC checks the projection '
+             'invariants and idempotence on all histories and every reachable state is replayed into minecraft/__init__.py.',
+        note='Trusted: TLC, JSON hand-over, the release-name regular expression re-stated in the harness. Dynamic part over a '
+             '3-record base list and a pool of 6 extensions (<= 3 / 4 operations).',
+        design='5/C08'),
     'C04': dict(
         technique='TLA+ bit-level packing (PositionCodec.tla) enumerated by TLC; rows replayed into Position/'
                   'ChunkSectionPos/Record (S->I); layout vector over all known versions checked by TLC ASSUMEs '
